@@ -562,11 +562,10 @@ def clip_nested_docs():
         # a group WITHOUT a clip-path (the use's transform) around a group WITH one (the referenced shape's own clip-path): entered
         '<use xlink:href="#shc" transform="translate(2 2)"/>',
         '<use xlink:href="#shc" transform="translate(2 2)"/><use xlink:href="#sh" x="40"/>',
+        # both levels clipped (`<use clip-path>` of a shape with its own clip-path): write_clip_path_children skips the inner group, the shape
+        # is NOT written and the re-parsed tree is smaller: known class clip-child-double-clip (C07 / C08), corpus/witness/C07-clip-child-double-clip.svg
+        '<use xlink:href="#shc" transform="translate(2 2)" clip-path="url(#cin)"/><rect x="50" y="50" width="20" height="20"/>',
     ]
-    # both levels clipped (`<use clip-path>` of a shape with its own clip-path): write_clip_path_children skips the inner group, the shape is
-    # NOT written and the re-parsed tree is smaller (candidate defect clip-child-double-clip, reported in round 4 third pass; not an input
-    # until the maintainer decides between a fix and a known class):
-    #   '<use xlink:href="#shc" transform="translate(2 2)" clip-path="url(#cin)"/><rect x="50" y="50" width="20" height="20"/>'
     out = []
     for k in kids:
         for outer in ('', ' clip-path="url(#cin2)"'):
